@@ -23,7 +23,12 @@ pub struct SeqCase {
     /// hex of bytes queued behind the final packet
     pub trailing: String,
     pub chunks: Vec<usize>,
+    /// hex of the terminal's positive acknowledgement (None: 80 00 00); the control field 80 00 may carry a data block
+    #[serde(default)]
+    pub ack: Option<String>,
 }
+/// positive acknowledgements a terminal may send: empty, with a data block (as in the Feig extension), extended length form
+pub const ACKS: [&str; 7] = ["800000", "80000100", "800003060f00", "800004061e016c", "8000ff0000", "8000ff0300aabbcc", "800002ffff"];
 
 #[derive(Serialize, Deserialize, Clone, Debug)]
 pub struct Fault {
@@ -94,7 +99,8 @@ pub fn check_seq(m: &Model, c: &SeqCase) -> CheckResult {
     }
     let cmd = unhex(&c.cmd);
     let trailing = unhex(&c.trailing);
-    let mut script = vec![ACK.to_vec()];
+    let ack = c.ack.as_ref().map(|a| unhex(a)).unwrap_or(ACK.to_vec());
+    let mut script = vec![ack.clone()];
     script.extend(replies.iter().cloned());
     let peer = Peer::scripted(script, trailing.clone(), c.chunks.clone());
     let run = guard(|| (s.run)(&cmd, peer, replies.len() + 3)).map_err(|p| Violation::new("seq", sig("C05", &c.seq, "panic"), p, input.clone()))?;
@@ -108,7 +114,7 @@ pub fn check_seq(m: &Model, c: &SeqCase) -> CheckResult {
         Some(Ok(d)) => format!("Ok({})", clip(d, 200)),
         Some(Err(e)) => format!("Err({})", clip(e, 200)),
     };
-    let mut boundary = 3usize;
+    let mut boundary = ack.len();
     for k in 0..n {
         boundary += replies[k].len();
         let Some(sn) = run.snaps.get(k) else { return v("stream-ended-early", format!("only {} items for {n} replies", run.snaps.len())) };
@@ -469,7 +475,19 @@ pub fn run_c05(tier: Tier) -> i32 {
         for (k, sc) in scripts(&m, s, depth).into_iter().enumerate() {
             let replies: Vec<String> = sc.iter().map(|v| hex(pools.pick(owned[*v].3, ((k * 977) % 65536) as u16 / 8))).collect();
             let trailing: Vec<u8> = if k % 3 == 0 { vec![] } else { (0..(k % 64)).map(|x| (x * 37 + k) as u8).collect() };
-            let c = SeqCase { seq: s.name.to_string(), cmd: cmd.clone(), replies, trailing: hex(&trailing), chunks: CHUNKINGS[k % 4].to_vec() };
+            // short scripts with every form of the positive acknowledgement, longer ones with a rotating one
+            let ack = if sc.len() <= 2 { None } else { Some(ACKS[k % ACKS.len()].to_string()).filter(|a| a != "800000") };
+            let c = SeqCase { seq: s.name.to_string(), cmd: cmd.clone(), replies, trailing: hex(&trailing), chunks: CHUNKINGS[k % 4].to_vec(), ack };
+            if sc.len() <= 2 {
+                for a in &ACKS[1..] {
+                    let c2 = SeqCase { ack: Some(a.to_string()), ..c.clone() };
+                    st.case(true, fnv(&serde_json::to_vec(&c2).unwrap()));
+                    st.class("acknowledgement-with-data-block-or-extended-length");
+                    ctx.record(check_seq(&m, &c2), st);
+                }
+            } else if c.ack.is_some() {
+                st.class("acknowledgement-with-data-block-or-extended-length");
+            }
             st.case(sc.len() >= 2 && !trailing.is_empty(), fnv(&serde_json::to_vec(&c).unwrap()));
             st.class(&format!("exhaustive:len={}", sc.len()));
             if k == 7 {
@@ -504,7 +522,7 @@ pub fn run_c05(tier: Tier) -> i32 {
             }
             let k = finals[(fin.0 as usize * finals.len()) >> 16];
             replies.push(hex(pools.pick(owned[k].3, fin.1)));
-            let c = SeqCase { seq: s.name.to_string(), cmd: hex(pools.pick(s.cmd, *csel)), replies, trailing: hex(trailing), chunks: chunks.clone() };
+            let c = SeqCase { seq: s.name.to_string(), cmd: hex(pools.pick(s.cmd, *csel)), replies, trailing: hex(trailing), chunks: chunks.clone(), ack: None };
             st.case(c.replies.len() >= 2 && !trailing.is_empty(), fnv(&serde_json::to_vec(&c).unwrap()));
             st.class(if c.replies.len() > 6 { "random:len>6" } else { "random:len<=6" });
             if c.replies.iter().any(|r| r.len() >= 6 && &r[4..6] == "ff") {
@@ -559,7 +577,7 @@ pub fn run_c05(tier: Tier) -> i32 {
     stats.exhaustive_parts = vec![format!("17 sequences x every well-formed reply script (non-final* . final) of length <= {depth} over the command's reply alphabet")];
     ctx.finish(
         stats,
-        "17 Sequence impls x reply scripts over each command's reply alphabet (Appendix B): all scripts up to the stated depth with representative canonical bodies, then proptest scripts up to length 40 with random canonical bodies, each x 0..64 bytes queued behind the final packet x a chunk schedule. Oracle: the peer's event log equals the trace computed by the reference model (command once and byte-identical, each reply answered by exactly one 80 00 00 before it is handed over and before the next is read, items = the replies' own decode in order, None twice after the first final packet without I/O, trailing bytes unread). The firmware upload stream (data request answered by WriteData) is driven with the C11 generator (payload directories x block sizes x request scripts) and the C11 oracle: each good request answered exactly once with id, offset and file[offset..min(offset+block,size)], completion/abort acknowledged, trailing bytes unread. non-trivial = >= 1 intermediate packet before the final one and trailing bytes present (upload: >= 2 files and a request entitled to a longer block than an earlier short one); distinct by (sequence, command, script bytes, trailing, schedule)",
+        "17 Sequence impls x reply scripts over each command's reply alphabet (Appendix B): all scripts up to the stated depth with representative canonical bodies, then proptest scripts up to length 40 with random canonical bodies, each x 0..64 bytes queued behind the final packet x a chunk schedule x the form of the terminal's positive acknowledgement (80 00 00, with a data block, extended length form). Oracle: the peer's event log equals the trace computed by the reference model (command once and byte-identical, each reply answered by exactly one 80 00 00 before it is handed over and before the next is read, items = the replies' own decode in order, None twice after the first final packet without I/O, trailing bytes unread). The firmware upload stream (data request answered by WriteData) is driven with the C11 generator (payload directories x block sizes x request scripts) and the C11 oracle: each good request answered exactly once with id, offset and file[offset..min(offset+block,size)], completion/abort acknowledged, trailing bytes unread. non-trivial = >= 1 intermediate packet before the final one and trailing bytes present (upload: >= 2 files and a request entitled to a longer block than an earlier short one); distinct by (sequence, command, script bytes, trailing, schedule)",
         &["the scripted peer releases reply i+1 only when the client has answered reply i; a poll for data while nothing is released is logged and is itself a violation", "replies are canonical packets of the variant types (table-driven)"],
         false,
     )
@@ -675,7 +693,7 @@ pub fn run_c06(tier: Tier) -> i32 {
             let positions: Vec<usize> = if pre.is_empty() { vec![0, 1] } else { vec![pre.len() + 1] };
             for pos in positions {
                 for (fi, f) in faults_at(&m, s, &pools, pos, pi).into_iter().enumerate() {
-                    let c = SeqCase { seq: s.name.to_string(), cmd: cmd.clone(), replies: replies.clone(), trailing: String::new(), chunks: CHUNKINGS[(pi + fi) % 4].to_vec() };
+                    let c = SeqCase { seq: s.name.to_string(), cmd: cmd.clone(), replies: replies.clone(), trailing: String::new(), chunks: CHUNKINGS[(pi + fi) % 4].to_vec(), ack: None };
                     st.case(pos >= 2, fnv(&serde_json::to_vec(&(&c, &f)).unwrap()));
                     st.class(&format!("{}@{}", f.kind, if pos == 0 { "ack" } else if pos == 1 { "first-reply" } else { "later-reply" }));
                     if pi == 3 && fi == 5 {
@@ -707,7 +725,7 @@ pub fn run_c06(tier: Tier) -> i32 {
                 let mut script = pre.clone();
                 script.push(*f);
                 let replies: Vec<String> = script.iter().enumerate().map(|(j, v)| hex(pools.pick(owned[*v].3, ((pi * 13 + fi * 5 + j * 7) % 4096) as u16 * 16))).collect();
-                let c = SeqCase { seq: s.name.to_string(), cmd: cmd.clone(), replies: replies.clone(), trailing: String::new(), chunks: CHUNKINGS[(pi + fi) % 4].to_vec() };
+                let c = SeqCase { seq: s.name.to_string(), cmd: cmd.clone(), replies: replies.clone(), trailing: String::new(), chunks: CHUNKINGS[(pi + fi) % 4].to_vec(), ack: None };
                 for w in 0..=replies.len() {
                     st.case(w >= 2, fnv(&serde_json::to_vec(&(&c, w, "write")).unwrap()));
                     st.class(if w == 0 { "write-fails@command" } else if w == replies.len() { "write-fails@ack-of-final-packet" } else { "write-fails@ack-of-intermediate-packet" });
@@ -731,7 +749,7 @@ pub fn run_c06(tier: Tier) -> i32 {
                     continue;
                 }
                 let f = Fault { pos, kind: "foreign".into(), bytes: hex(&[class, instr, 0x00]) };
-                let c = SeqCase { seq: s.name.to_string(), cmd: cmd.clone(), replies: vec![], trailing: String::new(), chunks: vec![] };
+                let c = SeqCase { seq: s.name.to_string(), cmd: cmd.clone(), replies: vec![], trailing: String::new(), chunks: vec![], ack: None };
                 n += 1;
                 let r = check_fault(&m, &c, &f);
                 if r.is_err() && bad < 3 {
@@ -804,7 +822,7 @@ pub fn run_c06(tier: Tier) -> i32 {
             let pos = if *at_ack && replies.is_empty() { 0 } else { replies.len() + 1 };
             let fs = faults_at(&m, s, &pools, pos, *salt as usize);
             let f = fs[(*fsel as usize * fs.len()) >> 16].clone();
-            let c = SeqCase { seq: s.name.to_string(), cmd: hex(pools.pick(s.cmd, *csel)), replies, trailing: String::new(), chunks: chunks.clone() };
+            let c = SeqCase { seq: s.name.to_string(), cmd: hex(pools.pick(s.cmd, *csel)), replies, trailing: String::new(), chunks: chunks.clone(), ack: None };
             st.case(pos >= 2, fnv(&serde_json::to_vec(&(&c, &f)).unwrap()));
             st.class(&format!("random:{}", f.kind));
             check_fault(&m, &c, &f)
